@@ -60,7 +60,8 @@ def shard_main(argv):
     except HarnessError as ex:
         res["harness_error"] = f"{ex}"
     except BaseException as ex:  # noqa
-        res["harness_error"] = "unexpected exception in harness: " + "".join(traceback.format_exception(ex))[-3000:]
+        tb = "".join(traceback.format_exception(ex))
+        res["harness_error"] = f"unexpected exception in harness: {type(ex).__name__}: {str(ex)[:300]} || " + tb[-1500:]
     with open(out, "w") as f:
         json.dump(res, f)
     sys.stdout.flush()
